@@ -127,17 +127,26 @@ func VerifSymSizeErrors() {
 	zzverifstubs.Init()
 	a := vPick()
 	bad := zzverif.Choose("wrong", 5) // 0 key, 1 nonce, 2 tag (decrypt), 3 plaintext length (nopad), 4 ciphertext length (cbc decrypt)
-	delta := []int{-1, 1, 8}[zzverif.Choose("delta", 3)]
+	// the wrong size is one byte off, or a size that is right for ANOTHER algorithm of the package (the confusable ones)
+	wrong := func(right int) int {
+		cands := []int{right - 1, right + 1}
+		for _, s := range []int{0, 8, 12, 16, 24, 32, 48, 64} {
+			if s != right {
+				cands = append(cands, s)
+			}
+		}
+		return cands[zzverif.Choose("wrong_size", len(cands))]
+	}
 	kl, nl, tl := a.key, a.nonce, a.tag
 	switch bad {
 	case 0:
-		kl += delta
+		kl = wrong(a.key)
 	case 1:
 		zzverif.Assume(a.nonce > 0)
-		nl += delta
+		nl = wrong(a.nonce)
 	case 2:
 		zzverif.Assume(a.tag > 0)
-		tl += delta
+		tl = wrong(a.tag)
 	case 3:
 		zzverif.Assume(a.nopad)
 	case 4:
